@@ -187,7 +187,15 @@ func init() {
 		},
 		"(error).Error": func(a *Act, st *State, callee *ssa.Function, args []Term, pos token.Pos) []Term {
 			a.mayPanic(st, "nilderef", pos, Not(Eq(args[0], "VNil")), "")
-			return []Term{a.tr.freshConst("errmsg", "String")}
+			a.tr.eng.declareOnce(a.tr, "spec_errorString", "(declare-fun spec_errorString (Val) String)")
+			return []Term{app("spec_errorString", args[0])}
+		},
+		"(interface{ErrorValue() types.MalType}).ErrorValue": func(a *Act, st *State, callee *ssa.Function, args []Term, pos token.Pos) []Term {
+			a.mayPanic(st, "nilderef", pos, Not(Eq(args[0], "VNil")), "")
+			a.tr.eng.declareOnce(a.tr, "spec_errorValueOf", "(declare-fun spec_errorValueOf (Val) Val)")
+			r := app("spec_errorValueOf", args[0])
+			a.assumeWF(st, types.NewInterfaceType(nil, nil), r, 1)
+			return []Term{r}
 		},
 		"(marshaler.HashMap).MarshalHashMap": func(a *Act, st *State, callee *ssa.Function, args []Term, pos token.Pos) []Term {
 			tr := a.tr
